@@ -84,6 +84,8 @@ structure SSt where
   finds : Array SFind := #[]
   /-- highest position delivered or asked about so far (C06 bound) -/
   reach : Int := -1
+  /-- consult counter at the last `cons`, valid while only creation / view statements followed -/
+  lastCons : Option Nat := none
 
 def maxTake : Nat := 100000
 
@@ -220,7 +222,11 @@ def specStmt (v : String) (sd : SD) (st : SSt) (s : Stmt) (res : String) : Strin
   let bump := fun (st : SSt) (r : Int) => { st with reach := max st.reach r }
   -- positions asked about by a full or partial traversal of window w delivering `got` items
   let reachOf := fun (w : Win) (delivered : List (Nat × Nat)) (take : Int) =>
-    let lastP : Int := match delivered.getLast? with | some (p, _) => p | none => max w.lo 0
+    let lastP : Int := match delivered.getLast? with
+      | some (p, _) => p
+      | none => match upper sd.len w with
+        | some u => min (max w.lo 0) (max u 0)     -- empty window: asked about is clamped to its end
+        | none => max w.lo 0
     if (delivered.length : Int) < take then
       -- ran to the end of the window: the end itself was asked about
       match upper sd.len w with | some u => max u lastP | none => lastP
@@ -529,13 +535,17 @@ def specStmt (v : String) (sd : SD) (st : SSt) (s : Stmt) (res : String) : Strin
         (if res == showInts xs then "ok" else fail "live search iterator (other searches were created and run in between)" res (showInts xs), bump st' top)
   | .cons =>
     if res == "na" then ("ok", st) else
+    let stPrev := st
     match (res.splitOn "/").map String.toNat? with
     | [some calls, some afterEnd, some reentry] =>
       -- C06: never again after the end marker, never re-entrant/concurrent, bounded read-ahead
       let bound : Int := st.reach + 1 + 1000
       let bound := if sd.eagerFirst then max bound 1 else max bound 0
+      let st := { st with lastCons := some calls }
       if afterEnd ≠ 0 then ("FAIL the digit source was consulted again after it had signalled the end", st)
       else if reentry ≠ 0 then ("FAIL the digit source was consulted re-entrantly or concurrently", st)
+      else if (match stPrev.lastCons with | some c0 => decide (calls > c0) | none => false) then
+        (s!"FAIL deriving views / creating iterators or matchers consulted the source ({calls} consultations, {stPrev.lastCons.getD 0} before): creation must consult nothing", st)
       else if (calls : Int) > bound then
         (s!"FAIL {calls} positions consulted although the highest position delivered or asked about is {st.reach} (bound {st.reach}+1+1000)", st)
       else match sd.len with
@@ -572,6 +582,11 @@ def specScriptLine (v desc stmts : String) (raw : String) : String :=
           | _ :: _, [], _, i => s!"FAIL statement {i} has no result"
           | s :: ss, r :: rs, st, i =>
             let (verdict, st') := specStmt v sd st s r
+            let pureStmt : Bool := v == "v3" && (match s with
+              | .ws _ _ | .we _ _ | .wsig _ _ | .fws _ _ | .mk _ _ | .mkseq _ | .mkf _ _ _ | .exp _ | .zero _ | .cons => true
+              | .find op _ _ n => (op == "m" || op == "bm" || op == "ffn" || op == "fln") && n ≤ 0
+              | _ => false)
+            let st' := if pureStmt then st' else { st' with lastCons := none }
             if beyondDepth sd st' then "ok"      -- the rest of this script is outside the oracle's reach
             else if verdict == "ok" then go ss rs st' (i + 1) else s!"{verdict} [statement {i}]"
         go ss rs st0 0
